@@ -17,13 +17,15 @@ CONSTANTS MaxVitalS,    \* vital chunks the accepting side may send (MaxVital bo
           MaxForge,     \* forged datagrams
           MaxDisc,      \* 1: Disconnect is explored
           Reasons,      \* close-reason lengths offered to Disconnect
-          InitOnline    \* TRUE: start from an established connection (used with SeqStart # 0)
+          InitOnline,   \* TRUE: start from an established connection (used with SeqStart # 0)
+          MaxFails,     \* calls during which the send callback reports an error
+          FailKs,       \* which datagram of such a call is refused (k-th handed to the callback)
+          MaxResets,    \* Connection::reset() calls (a closed endpoint starts a new session on the same object)
+          MaxAcceptTok  \* 1: the accepting side may replace its pending connection by Connection::new_accept_token (0.6)
 
 Step == 500
 E == {"c", "s"}
 Peer(e) == IF e = "c" THEN "s" ELSE "c"
-\* the token an endpoint draws from its random source
-Draw(e) == IF V7 THEN (IF e = "c" THEN "C" ELSE "S") ELSE "T"
 
 VARIABLES ep,        \* endpoint records
           net,       \* net[e]: datagrams sent by e, in flight to Peer(e)
@@ -33,10 +35,18 @@ VARIABLES ep,        \* endpoint records
           del,       \* del[e]: events handed to the application at e, in order
           ready,     \* number of Ready events seen by the application
           answered,  \* the accepting side has sent its ConnectAccept (0.6) / Accept (0.7)
+          bnd,       \* bnd[e]: lengths of sub[e] / del[e] at every reset() of e (session boundaries of e's application)
+          orph,      \* orph[e]: e's peer has started a new session while e was still in the old one
           cnt,       \* exploration counters
           stable,    \* the fair suffix has begun
           act, out   \* last action with its arguments / its result (excluded from the VIEW)
-vars == <<ep, net, sub, snv, scl, del, ready, answered, cnt, stable, act, out>>
+vars == <<ep, net, sub, snv, scl, del, ready, answered, bnd, orph, cnt, stable, act, out>>
+
+\* the token an endpoint draws from its random source: a new one in every session
+Draw(e) == LET b == IF V7 THEN (IF e = "c" THEN "C" ELSE "S") ELSE "T"
+               n == Len(bnd[e]) + 1
+           IN IF n = 1 THEN b ELSE b \o ToString(n)
+NoOut == [res |-> "ok", evs |-> <<>>, outs |-> <<>>, w |-> "-"]
 
 NetOk == \A e \in E : Len(net[e]) <= MaxInFlight
 IsAnswer(d) == d.k = "ctrl" /\ d.c = (IF V7 THEN "Accept" ELSE "ConnectAccept")
@@ -48,6 +58,7 @@ EstOnline(e) ==   \* an established endpoint just after both sides flushed at ti
   ELSE [Online(Fresh, IF TokenMode THEN "T" ELSE "no", "no", "no") EXCEPT !.sendT = SendTO]
 
 Init ==
+  /\ bnd = [e \in E |-> <<>>]
   /\ ep = [e \in E |-> IF InitOnline THEN EstOnline(e) ELSE Fresh]
   /\ net = [e \in E |-> <<>>]
   /\ sub = [e \in E |-> <<>>]
@@ -56,11 +67,12 @@ Init ==
   /\ del = [e \in E |-> <<>>]
   /\ ready = IF InitOnline THEN 1 ELSE 0
   /\ answered = InitOnline
+  /\ orph = [e \in E |-> FALSE]
   /\ cnt = [vital |-> [e \in E |-> 0], nv |-> [e \in E |-> 0], cl |-> [e \in E |-> 0],
-            faults |-> 0, clock |-> 0, forge |-> 0, disc |-> 0]
+            faults |-> 0, clock |-> 0, forge |-> 0, disc |-> 0, fails |-> 0, resets |-> 0, atok |-> 0]
   /\ stable = FALSE
   /\ act = [a |-> "init"]
-  /\ out = [res |-> "ok", evs |-> <<>>, outs |-> <<>>]
+  /\ out = NoOut
 
 \* effect of an API call at e with result r (a record R(...) of Conn)
 Apply(e, r) ==
@@ -69,91 +81,139 @@ Apply(e, r) ==
   /\ del' = [del EXCEPT ![e] = @ \o r.evs]
   /\ ready' = ready + Readies(r.evs)
   /\ answered' = (answered \/ Answers(e, r.outs))
-  /\ out' = [res |-> r.res, evs |-> r.evs, outs |-> r.outs]
+  /\ out' = [res |-> r.res, evs |-> r.evs, outs |-> r.outs, w |-> r.w]
+  /\ UNCHANGED <<bnd, orph>>
 
-Connect ==
+\* exploration of callback failures: the k-th datagram of the call is refused; only calls in which that really happens
+\* are explored (k = 0: no failure), within the budget.  `r`: result of the call.
+FailBudget(k, r) == k = 0 \/ (cnt.fails < MaxFails /\ r.res = "callback")
+Ks == {0} \cup FailKs
+CntFail(c, k) == IF k = 0 THEN c ELSE [c EXCEPT !.fails = @ + 1]
+
+ConnectWith(k) ==
   /\ ep["c"].st = "Unc"
-  /\ Apply("c", ConnectOp(ep["c"], Draw("c")))
-  /\ act' = [a |-> "connect", e |-> "c"]
-  /\ UNCHANGED <<sub, snv, scl, cnt>>
+  /\ Apply("c", ConnectOp(ep["c"], Draw("c"), k))
+  /\ act' = [a |-> "connect", e |-> "c", k |-> k]
+  /\ UNCHANGED <<sub, snv, scl>>
+Connect == \E k \in Ks : /\ FailBudget(k, ConnectOp(ep["c"], Draw("c"), k)) /\ ConnectWith(k) /\ cnt' = CntFail(cnt, k)
 
 NextId(e) == cnt.vital[e] + cnt.nv[e] + cnt.cl[e] + 1
 
-SendWith(e, v, sz, id) ==
-  LET r == SendOp(ep[e], [id |-> id, sz |-> sz, v |-> v])
-      okk == r.res = "ok"
+\* A send whose flush failed has queued the chunk all the same ("callback"): it counts as submitted.
+SendWith(e, v, sz, id, k) ==
+  LET r == SendOp(ep[e], [id |-> id, sz |-> sz, v |-> v], k)
+      okk == r.res \in {"ok", "callback"}
   IN /\ ep[e].st = "Onl"
      /\ Apply(e, r)
      /\ sub' = IF okk /\ v THEN [sub EXCEPT ![e] = Append(@, id)] ELSE sub
      /\ snv' = IF okk /\ ~v THEN [snv EXCEPT ![e] = @ \cup {id}] ELSE snv
-     /\ cnt' = IF v THEN [cnt EXCEPT !.vital[e] = @ + 1] ELSE [cnt EXCEPT !.nv[e] = @ + 1]
-     /\ act' = [a |-> "send", e |-> e, v |-> v, sz |-> sz, id |-> id]
+     /\ act' = [a |-> "send", e |-> e, v |-> v, sz |-> sz, id |-> id, k |-> k]
      /\ UNCHANGED scl
 Send(e) ==
   /\ e \in Senders
-  /\ \E v \in BOOLEAN, sz \in Sizes :
+  /\ \E v \in BOOLEAN, sz \in Sizes, k \in Ks :
+       LET id == IF sz = 0 THEN 0 ELSE NextId(e) IN
        /\ IF v THEN cnt.vital[e] < (IF e = "s" THEN MaxVitalS ELSE MaxVital) ELSE cnt.nv[e] < MaxNV
-       /\ SendWith(e, v, sz, IF sz = 0 THEN 0 ELSE NextId(e))
+       /\ FailBudget(k, SendOp(ep[e], [id |-> id, sz |-> sz, v |-> v], k))
+       /\ SendWith(e, v, sz, id, k)
+       /\ cnt' = CntFail(IF v THEN [cnt EXCEPT !.vital[e] = @ + 1] ELSE [cnt EXCEPT !.nv[e] = @ + 1], k)
 
-ConnlessWith(e, sz, id) ==
-  LET r == ConnlessOp(ep[e], [id |-> id, sz |-> sz])
+\* a connless payload the callback refused was not sent
+ConnlessWith(e, sz, id, k) ==
+  LET r == ConnlessOp(ep[e], [id |-> id, sz |-> sz], k)
   IN /\ ep[e].st = "Onl"
      /\ Apply(e, r)
      /\ scl' = IF r.res = "ok" THEN [scl EXCEPT ![e] = @ \cup {id}] ELSE scl
-     /\ cnt' = [cnt EXCEPT !.cl[e] = @ + 1]
-     /\ act' = [a |-> "connless", e |-> e, sz |-> sz, id |-> id]
+     /\ act' = [a |-> "connless", e |-> e, sz |-> sz, id |-> id, k |-> k]
      /\ UNCHANGED <<sub, snv>>
 SendConnless(e) ==
   /\ e \in Senders /\ cnt.cl[e] < MaxConnless
-  /\ \E sz \in Sizes : ConnlessWith(e, sz, IF sz = 0 THEN 0 ELSE NextId(e))
+  /\ \E sz \in Sizes, k \in Ks :
+       LET id == IF sz = 0 THEN 0 ELSE NextId(e) IN
+       /\ FailBudget(k, ConnlessOp(ep[e], [id |-> id, sz |-> sz], k))
+       /\ ConnlessWith(e, sz, id, k)
+       /\ cnt' = CntFail([cnt EXCEPT !.cl[e] = @ + 1], k)
 
-FlushApi(e) ==
+FlushWith(e, k) ==
   /\ ep[e].st = "Onl"
-  /\ Apply(e, FlushOp(ep[e]))
-  /\ act' = [a |-> "flush", e |-> e]
-  /\ UNCHANGED <<sub, snv, scl, cnt>>
-
-TickAny(e) ==               \* tick() may be called at any time; when nothing is due it is a no-op
-  /\ Apply(e, TickOp(ep[e]))
-  /\ act' = [a |-> "tick", e |-> e]
-  /\ UNCHANGED <<sub, snv, scl, cnt>>
-Tick(e) == TickDue(ep[e]) /\ TickAny(e)     \* the model explores due ticks only
-
-DisconnectWith(e, r) ==
-  /\ ep[e].st # "Disc" /\ (V7 \/ ep[e].st # "Unc")
-  /\ Apply(e, DisconnectOp(ep[e], r))
-  /\ act' = [a |-> "disconnect", e |-> e, r |-> r]
-  /\ cnt' = [cnt EXCEPT !.disc = @ + 1]
+  /\ Apply(e, FlushOp(ep[e], k))
+  /\ act' = [a |-> "flush", e |-> e, k |-> k]
   /\ UNCHANGED <<sub, snv, scl>>
-Disconnect(e) == cnt.disc < MaxDisc /\ \E r \in Reasons : DisconnectWith(e, r)
+FlushApi(e) == \E k \in Ks : FailBudget(k, FlushOp(ep[e], k)) /\ FlushWith(e, k) /\ cnt' = CntFail(cnt, k)
+
+TickAny(e, k) ==            \* tick() may be called at any time; when nothing is due it is a no-op
+  /\ Apply(e, TickOp(ep[e], k))
+  /\ act' = [a |-> "tick", e |-> e, k |-> k]
+  /\ UNCHANGED <<sub, snv, scl>>
+\* the model explores due ticks only
+Tick(e) == /\ TickDue(ep[e])
+           /\ \E k \in Ks : FailBudget(k, TickOp(ep[e], k)) /\ TickAny(e, k) /\ cnt' = CntFail(cnt, k)
+
+DisconnectWith(e, r, k) ==
+  /\ ep[e].st # "Disc" /\ (V7 \/ ep[e].st # "Unc")
+  /\ Apply(e, DisconnectOp(ep[e], r, k))
+  /\ act' = [a |-> "disconnect", e |-> e, r |-> r, k |-> k]
+  /\ UNCHANGED <<sub, snv, scl>>
+Disconnect(e) == /\ cnt.disc < MaxDisc
+                 /\ \E r \in Reasons, k \in Ks : /\ FailBudget(k, DisconnectOp(ep[e], r, k)) /\ DisconnectWith(e, r, k)
+                                                 /\ cnt' = CntFail([cnt EXCEPT !.disc = @ + 1], k)
+
+\* ----------------------------------------------------------------- sessions
+\* Connection::reset on a closed endpoint: the same object starts over.  What its application submitted and was handed
+\* before belongs to the old session; datagrams of the old session may still be in flight in both directions.
+ResetOf(e) ==
+  /\ ep[e].st = "Disc"
+  /\ ep' = [ep EXCEPT ![e] = ResetOp(ep[e]).x]
+  /\ bnd' = [bnd EXCEPT ![e] = Append(@, [s |-> Len(sub[e]), d |-> Len(del[e])])]
+  /\ orph' = [orph EXCEPT ![e] = FALSE, ![Peer(e)] = ep[Peer(e)].st \notin {"Unc", "Disc"}]
+  /\ ready' = IF e = "c" THEN 0 ELSE ready
+  /\ act' = [a |-> "creset", e |-> e]
+  /\ out' = NoOut
+  /\ UNCHANGED <<net, sub, snv, scl, del, answered>>
+Reset(e) == cnt.resets < MaxResets /\ ResetOf(e) /\ cnt' = [cnt EXCEPT !.resets = @ + 1]
+
+\* Connection::new_accept_token (0.6 with token): the accepting application answered the connect request with a
+\* throw-away connection and now replaces it by one that starts online with the token handed out
+AcceptTokenAt ==
+  /\ ~V7 /\ ep["s"].st = "Pend" /\ ep["s"].tok # "no"
+  /\ ep' = [ep EXCEPT !["s"] = AcceptTokenOp(ep["s"].tok).x]
+  /\ act' = [a |-> "accepttoken", e |-> "s"]
+  /\ out' = NoOut
+  /\ UNCHANGED <<net, sub, snv, scl, del, ready, answered, bnd, orph>>
+AcceptToken == cnt.atok < MaxAcceptTok /\ AcceptTokenAt /\ cnt' = [cnt EXCEPT !.atok = @ + 1]
 
 AdvanceBy(d) ==
   /\ ep' = [e \in E |-> AdvanceOp(ep[e], d)]
   /\ act' = [a |-> "advance", d |-> d]
-  /\ out' = [res |-> "ok", evs |-> <<>>, outs |-> <<>>]
-  /\ UNCHANGED <<net, sub, snv, scl, del, ready, answered>>
+  /\ out' = NoOut
+  /\ UNCHANGED <<net, sub, snv, scl, del, ready, answered, bnd, orph>>
 Advance == cnt.clock < MaxClock /\ AdvanceBy(Step) /\ cnt' = [cnt EXCEPT !.clock = @ + 1]
 
 \* the i-th datagram in flight from e reaches Peer(e)
-DeliverAt(e, i, keep) ==
+DeliverAt(e, i, keep, k) ==
   LET d == net[e][i]
       p == Peer(e)
-      r == FeedOp(ep[p], d, Draw(p))
+      r == FeedOp(ep[p], d, Draw(p), k)
       rest == IF keep THEN net ELSE [net EXCEPT ![e] = RemoveAt(@, i)]
   IN /\ ep' = [ep EXCEPT ![p] = r.x]
      /\ net' = [rest EXCEPT ![p] = @ \o r.outs]
      /\ del' = [del EXCEPT ![p] = @ \o r.evs]
      /\ ready' = ready + Readies(r.evs)
      /\ answered' = (answered \/ Answers(p, r.outs))
-     /\ out' = [res |-> r.res, evs |-> r.evs, outs |-> r.outs]
-Deliver(e) == \E i \in 1..Len(net[e]) :
-                /\ DeliverAt(e, i, FALSE) /\ act' = [a |-> "deliver", from |-> e, i |-> i]
-                /\ UNCHANGED <<sub, snv, scl, cnt>>
+     /\ out' = [res |-> r.res, evs |-> r.evs, outs |-> r.outs, w |-> r.w]
+     /\ UNCHANGED <<bnd, orph>>
+FeedFails(e, i, k) == FailBudget(k, FeedOp(ep[Peer(e)], net[e][i], Draw(Peer(e)), k))
+Deliver(e) == \E i \in 1..Len(net[e]), k \in Ks :
+                /\ FeedFails(e, i, k)
+                /\ DeliverAt(e, i, FALSE, k) /\ act' = [a |-> "deliver", from |-> e, i |-> i, k |-> k]
+                /\ cnt' = CntFail(cnt, k)
+                /\ UNCHANGED <<sub, snv, scl>>
 \* duplication = delivery of a copy that stays in flight
 Dup(e) == /\ cnt.faults < MaxFaults
-          /\ \E i \in 1..Len(net[e]) :
-                /\ DeliverAt(e, i, TRUE) /\ act' = [a |-> "dup", from |-> e, i |-> i]
-          /\ cnt' = [cnt EXCEPT !.faults = @ + 1]
+          /\ \E i \in 1..Len(net[e]), k \in Ks :
+                /\ FeedFails(e, i, k)
+                /\ DeliverAt(e, i, TRUE, k) /\ act' = [a |-> "dup", from |-> e, i |-> i, k |-> k]
+                /\ cnt' = CntFail([cnt EXCEPT !.faults = @ + 1], k)
           /\ UNCHANGED <<sub, snv, scl>>
 Drop(e) ==
   /\ cnt.faults < MaxFaults
@@ -161,8 +221,8 @@ Drop(e) ==
        /\ net' = [net EXCEPT ![e] = RemoveAt(@, i)]
        /\ act' = [a |-> "drop", from |-> e, i |-> i]
   /\ cnt' = [cnt EXCEPT !.faults = @ + 1]
-  /\ out' = [res |-> "ok", evs |-> <<>>, outs |-> <<>>]
-  /\ UNCHANGED <<ep, sub, snv, scl, del, ready, answered>>
+  /\ out' = NoOut
+  /\ UNCHANGED <<ep, sub, snv, scl, del, ready, answered, bnd, orph>>
 
 \* ----------------------------------------------------------------- C03: foreign datagrams
 \* every packet kind, carrying any token other than the one endpoint e insists on
@@ -182,52 +242,60 @@ Forged(x) ==
                       [k |-> "connless", id |-> 999, sz |-> 5, tok |-> x.own, rt |-> t]} ELSE {})
     : t \in ForeignTokens(x)}
 ForgeWith(e, f) ==
-  /\ Apply(e, FeedOp(ep[e], f, Draw(e)))
+  /\ Apply(e, FeedOp(ep[e], f, Draw(e), 0))
   /\ act' = [a |-> "forge", e |-> e, f |-> f]
   /\ cnt' = [cnt EXCEPT !.forge = @ + 1]
   /\ UNCHANGED <<sub, snv, scl>>
 IsForeign(x, f) == /\ TokenFixed(x) /\ ~TokenException(x, f)
-                   /\ IF f.k = "connless" THEN f.tok # x.own \/ f.rt # x.their ELSE f.tok # Expected(x)
+                   \* (0.6 connless datagrams carry no token and are not connection-oriented: never foreign)
+                   /\ IF f.k = "connless" THEN V7 /\ (f.tok # x.own \/ f.rt # x.their) ELSE f.tok # Expected(x)
 \* the most dangerous forgeries: copies of genuine datagrams in flight towards e with a foreign token
 Stolen(e) == LET x == ep[e]  ds == net[Peer(e)] IN
              UNION {{[ds[j] EXCEPT !.tok = t] : t \in ForeignTokens(x)} : j \in 1..Len(ds)}
+\* connect requests whose token field is not the placeholder but a proposed token (reserved values, arbitrary ones),
+\* at a 0.6 endpoint that has not fixed a token yet: the acceptor draws its token itself, such requests are ignored
+ConnectProbes(e) == IF ~V7 /\ e = "s" /\ ep[e].st = "Unc"
+                    THEN {[k |-> "ctrl", c |-> "Connect", tok |-> t, rt |-> "-", ack |-> 0, r |-> -1] : t \in {"Z0", "W"}}
+                    ELSE {}
 Forge(e) ==
   /\ cnt.forge < MaxForge
-  /\ \E f \in Forged(ep[e]) \cup Stolen(e) : IsForeign(ep[e], f) /\ ForgeWith(e, f)
+  /\ \/ \E f \in Forged(ep[e]) \cup Stolen(e) : IsForeign(ep[e], f) /\ ForgeWith(e, f)
+     \/ \E f \in ConnectProbes(e) : ForgeWith(e, f)
 
 \* ----------------------------------------------------------------- C02: the fair suffix
-DeliverOldest(e) == /\ net[e] # <<>> /\ DeliverAt(e, 1, FALSE) /\ act' = [a |-> "deliver", from |-> e, i |-> 1]
+DeliverOldest(e) == /\ net[e] # <<>> /\ DeliverAt(e, 1, FALSE, 0) /\ act' = [a |-> "deliver", from |-> e, i |-> 1, k |-> 0]
                     /\ UNCHANGED <<sub, snv, scl, cnt>>
 Stabilize == /\ ~stable /\ stable' = TRUE /\ act' = [a |-> "stabilize"]
-             /\ out' = [res |-> "ok", evs |-> <<>>, outs |-> <<>>]
-             /\ UNCHANGED <<ep, net, sub, snv, scl, del, ready, answered, cnt>>
+             /\ out' = NoOut
+             /\ UNCHANGED <<ep, net, sub, snv, scl, del, ready, answered, bnd, orph, cnt>>
 \* deterministic fair scheduler: deliver everything in flight, then every due tick, then let time pass
 StableStep == /\ stable /\ UNCHANGED stable
               /\ IF \E e \in E : net[e] # <<>> THEN DeliverOldest(CHOOSE e \in E : net[e] # <<>>)
-                 ELSE IF \E e \in E : TickDue(ep[e]) THEN Tick(CHOOSE e \in E : TickDue(ep[e]))
+                 ELSE IF \E e \in E : TickDue(ep[e]) THEN TickAny(CHOOSE e \in E : TickDue(ep[e]), 0) /\ UNCHANGED cnt
                  ELSE AdvanceBy(Step) /\ UNCHANGED cnt
 
 Unstable == \/ Connect
             \/ \E e \in E : Send(e) \/ SendConnless(e) \/ FlushApi(e) \/ Tick(e) \/ Disconnect(e)
-                            \/ Deliver(e) \/ Drop(e) \/ Dup(e) \/ Forge(e)
-            \/ Advance
+                            \/ Deliver(e) \/ Drop(e) \/ Dup(e) \/ Forge(e) \/ Reset(e)
+            \/ Advance \/ AcceptToken
 Next == \/ (~stable /\ Unstable /\ UNCHANGED stable) \/ Stabilize \/ StableStep
 
 Spec == Init /\ [][Next]_vars
 FairSpec == Spec /\ WF_vars(StableStep)
 
 Constr == stable \/ NetOk
-View == <<ep, net, sub, snv, scl, del, ready, answered, cnt, stable>>
+View == <<ep, net, sub, snv, scl, del, ready, answered, bnd, orph, cnt, stable>>
 
 \* ----------------------------------------------------------------- properties
+\* the property-level specification (histories only); ConnSys refines it
+Ch == INSTANCE Channel
+ChannelSpec == Ch!ChannelSpec
+
 ChunkEvs(s) == SelectSeq(s, LAMBDA ev : ev.e = "chunk")
 VitalIds(s) == LET v == SelectSeq(ChunkEvs(s), LAMBDA ev : ev.v) IN [j \in 1..Len(v) |-> v[j].id]
-\* C01
-C01Prefix == \A e \in E : IsPrefix(VitalIds(del[Peer(e)]), sub[e])
-C01NonVital == \A e \in E : \A j \in 1..Len(del[Peer(e)]) :
-                 LET ev == del[Peer(e)][j] IN
-                 /\ (ev.e = "chunk" /\ ~ev.v) => ev.id \in snv[e]
-                 /\ ev.e = "connless" => ev.id \in scl[e]
+\* C01 (per session of the receiver, see Channel.tla)
+C01Prefix == Ch!Prefix(sub, del, bnd)
+C01NonVital == Ch!Genuine(snv, scl, del)
 C01Ready == ready <= 1 /\ (ready = 1 => answered)
 C01 == C01Prefix /\ C01NonVital /\ C01Ready
 \* C04: every datagram in flight respects the size and chunk-count limits
@@ -238,23 +306,35 @@ C04 == \A e \in E : \A j \in 1..Len(net[e]) :
           /\ d.k = "connless" => d.sz <= MaxPayload
 \* a refused send leaves the endpoint untouched
 C04Refusal == [][(act'.a = "send" /\ out'.res = "TooLongData") => UNCHANGED <<ep, net, del>>]_vars
+\* a call during which the send callback failed is, for everybody else, a call whose datagram was lost: nothing but
+\* the k-th datagram was refused, the k-1 before it were sent, none after it
+CallbackLoss == [][out'.res = "callback" =>
+                     /\ act'.a \in {"connect", "send", "flush", "tick", "disconnect", "connless", "deliver", "dup"}
+                     /\ act'.k # 0 /\ Len(out'.outs) = act'.k - 1]_vars
 \* C02: while anything is unsent, unacknowledged or mid-handshake the deadline is finite
 C02Deadline == \A e \in E : Busy(ep[e]) => NeedsTick(ep[e]) # Inactive
 \* C03: a forged datagram changes nothing
 C03Inert == [][(act'.a = "forge" /\ IsForeign(ep[act'.e], act'.f))
                   => (UNCHANGED <<ep, net, del, ready, answered>> /\ out'.evs = <<>> /\ out'.outs = <<>>)]_vars
+\* ... and so does a genuine datagram of another session (or any other datagram in flight) that does not carry the
+\* token the receiving endpoint has fixed: it is consumed without any effect
+C03InertDeliver ==
+  [][(act'.a \in {"deliver", "dup"} /\ IsForeign(ep[Peer(act'.from)], net[act'.from][act'.i]))
+        => (UNCHANGED <<ep, del, ready, answered>> /\ out'.evs = <<>> /\ out'.outs = <<>>
+            /\ net'[Peer(act'.from)] = net[Peer(act'.from)])]_vars
 \* tokens handed out are never reserved values (0.6/DDNet: all-ones and all-zero; 0.7: all-ones)
 C03Tokens == \A e \in E : TokenFixed(ep[e]) =>
                 (IF V7 THEN ep[e].own \notin {"FF", "no"} ELSE ep[e].tok \notin {"FF", "Z0"})
 
 Closed == \E e \in E : ep[e].st = "Disc"
+\* an endpoint still in a session its peer has left: only a receive timeout (not implemented: TODO in connection.rs)
+\* could end it
+Orphaned == \E e \in E : orph[e] /\ ep[e].st \notin {"Unc", "Disc"}
 Quiescent == \/ ep["c"].st = "Unc"
              \/ Closed
+             \/ Orphaned
              \/ /\ ready = 1
-                /\ \A e \in E : VitalIds(del[Peer(e)]) = sub[e] /\ Idle(ep[e])
+                /\ Ch!AllDelivered(sub, del, bnd)
+                /\ \A e \in E : Idle(ep[e])
 Progress == stable ~> Quiescent
-
-\* refinement: the histories of ConnSys are a behaviour of the property-level Channel specification
-Ch == INSTANCE Channel
-ChannelSpec == Ch!ChannelSpec
 =============================================================================
